@@ -6,14 +6,14 @@ reachable section table `run ops` (any history of new_section / append / set_vir
 flatten / relocate operations) or for every table whatsoever.  `Spec/Sections.lean` holds the meaning
 (`OrderSorted`, `NoOverlap`, `OffsetsMonotone`, `Aligned`, `idealOffsets`, `idealEnd`, `codeSizeSpec`, `imageByte`, `fitsB`).
 
-Not proved (tested on every run by the monitor `relocGood` over the real code's answers): that what `JitRuntime::_add`
-keeps (`estimate - code_size_reduction`) still holds the final image; byte patching of relocations (C04's subject).
+Not proved here: byte patching of relocations (C04's subject); the allocator behind `JitRuntime::add` (C09).
 -/
 import AsmjitVerif.Lemmas.SectionsRun
 import AsmjitVerif.Lemmas.SectionsSize
 import AsmjitVerif.Lemmas.SectionsCopy
 import AsmjitVerif.Lemmas.SectionsBuild
 import AsmjitVerif.Lemmas.SectionsJit
+import AsmjitVerif.Lemmas.SectionsRed
 namespace AsmjitVerif.Sections
 
 /-- every reachable table is strictly sorted by (order, id), its ids are below the section count, `.text` is first and
@@ -174,6 +174,25 @@ theorem estimate_ge_final (ops : List Op) (hb : BuildOK init ops) (hl : ops.leng
     simpa [run, step] using this
   exact relocate_code_size_le _ hinv' (flatten_addrTabOK _ hinv hat) base
 
+/-- `RelocationSummary::code_size_reduction` never overshoots: in the `JitRuntime::_add` order (build, flatten, relocate to
+    any base) final `code_size()` + reported reduction ≤ estimate, i.e. the `estimate - reduction` bytes that `_add` keeps
+    after shrinking the span still hold the whole final image -/
+theorem reduction_never_overshoots (ops : List Op) (hb : BuildOK init ops) (hl : ops.length < 2 ^ 60)
+    (hok : (flatten (run ops)).2 = .ok ()) (base : Nat) :
+    codeSize (relocate (flatten (run ops)).1 base).1 + (relocate (flatten (run ops)).1 base).2.2 ≤ codeSize (flatten (run ops)).1 := by
+  have hinv : InvS (flatten (run ops)).1.secs := by
+    have := run_inv (ops ++ [Op.flatten])
+    simpa [run, step] using this
+  have hat := flatten_addrTabOKv _ (run_inv ops) (build_addrTabOKv ops hb hl)
+  have hfit := (flatten_ok_iff ops).mp hok
+  have hc := (flattenCheck_iff 0 (run ops).secs (run_inv ops).pre (by unfold U64; omega)).mpr hfit
+  have hE := (assign_idealEnd 0 (run ops).secs (run_inv ops).pre hfit).1
+  have hns : idealEnd 0 (flatten (run ops)).1.secs < U64 := by
+    unfold flatten; rw [if_pos hc]
+    show idealEnd 0 (assign 0 (run ops).secs) < U64
+    rw [hE]; exact hfit
+  exact relocate_reduction_bound _ hinv hat base hns
+
 /-- state form of the same: whenever no entry has a slot yet and `.addrtab` reserves 8 bytes per entry -/
 theorem estimate_ge_final_state (h : Holder) (hinv : InvS h.secs) (hat : AddrTabOK h) (base : Nat) :
     codeSize (relocate h base).1 ≤ codeSize h := relocate_code_size_le h hinv hat base
@@ -239,6 +258,39 @@ theorem installed_image_after_relocate (ops : List Op) (hb : BuildOK init ops) (
     omega)
   exact ⟨d, h1, h2⟩
 
+/-- the whole (repaired) `JitRuntime::_add` on any built program and any span address never takes a write outside the span
+    (the model's `none`): it either reports an error (kTooLarge, kNoCodeGenerated, a relocation error) or installs bytes -/
+theorem jitAdd_no_fault (ops : List Op) (hb : BuildOK init ops) (hl : ops.length < 2 ^ 60) (base : Nat) :
+    (jitAdd (run ops) base).2 ≠ none := by
+  unfold jitAdd
+  cases hf : flatten (run ops) with
+  | mk h1 r =>
+    dsimp only
+    cases r with
+    | error e => simp
+    | ok u =>
+      cases u
+      dsimp only
+      split
+      · simp
+      · cases hr : relocate h1 base with
+        | mk h2 rr =>
+          obtain ⟨r2, red⟩ := rr
+          dsimp only
+          cases r2 with
+          | error e => simp
+          | ok u2 =>
+            cases u2
+            dsimp only
+            split
+            · simp
+            · have hok : (flatten (run ops)).2 = .ok () := by rw [hf]
+              obtain ⟨d, hd, _⟩ := installed_image_after_relocate ops hb hl hok base (codeSize (flatten (run ops)).1) (Nat.le_refl _)
+              rw [hf, hr] at hd
+              dsimp only at hd
+              rw [hd]
+              simp
+
 /-! ### non-vacuity and the defects of the pinned code, in Lean -/
 
 /-- `.text` 1 byte, `.a` empty align 16, `.b` 1 byte align 16 -/
@@ -262,6 +314,7 @@ def exCall : List Op := [.emitCall 0 false 0x7fff123456789abc, .emitCall 0 true 
 example : BuildOK init exCall := ⟨trivial, trivial, trivial⟩
 example : codeSize (flatten (run exCall)).1 = 32 := by decide
 example : codeSize (relocate (flatten (run exCall)).1 0x10000).1 = 24 ∧ (relocate (flatten (run exCall)).1 0x10000).2.2 = 8 := by decide
+example : (flatten (run exCall)).2.toBool = true := by decide
 example : (jitCopy (byId (relocate (flatten (run exCall)).1 0x10000).1.secs) (zeros 32)).isSome = true := by decide
 example : copySection (run ex17) (List.replicate 3 0xAA) 2 { padSection := true, padTarget := false } = .ok [0xCC, 0, 0] := by decide
 example : copySection (run ex17) [] 2 { padSection := true, padTarget := false } = .error .invalidArgument := by decide
